@@ -225,6 +225,9 @@ func (g *gen) constExpr(x ast.Expr) (constant.Value, bool) {
 }
 
 func (g *gen) pkgTypes() *types.Package {
+	if g.specPkg != nil {
+		return g.specPkg
+	}
 	if g.fn != nil && g.fn.Pkg != nil {
 		return g.fn.Pkg.Pkg
 	}
